@@ -271,6 +271,12 @@ def spec_ok(impl, spec):
         return impl.endswith(spec[1:])
     if spec.startswith("?"):
         return impl in spec[1:].split("||")
+    if spec.startswith("@"):
+        # token-wise: `*` matches any token; verdict flags computed by the harness must not be bad
+        st, it = spec[1:].split(" "), impl.split(" ")
+        return len(st) == len(it) and all(a == "*" or a == b for a, b in zip(st, it)) and "V=bad" not in impl
+    if "V=bad" in impl:
+        return False
     return impl == spec
 
 
@@ -369,7 +375,8 @@ def main(argv):
     if not ok:
         broken.append({"what": "factgen", "detail": msg})
     sh([sys.executable, os.path.join(VERIF, "lib", "genall.py")])
-    rc, out = lake_build([module, "mktsdrv"], log)
+    modules = [module] + cfg.get("extra_modules", [])
+    rc, out = lake_build(modules + ["mktsdrv"], log)
     if rc != 0:
         errs = broken_from_lake_output(out)
         broken.append({"what": "lake build " + module, "detail": errs or out[-2000:]})
@@ -382,7 +389,15 @@ def main(argv):
     hy = hygiene([module])
     if hy:
         broken.append({"what": "forbidden tokens in Lean sources", "detail": hy[:20]})
-    theorems = audit(module, log) if rc == 0 else None
+    theorems = None
+    if rc == 0:
+        theorems = []
+        for m in modules:
+            t = audit(m, log)
+            if t is None:
+                theorems = None
+                break
+            theorems += t
     bad_axioms = []
     if theorems is not None:
         for t in theorems:
@@ -393,14 +408,14 @@ def main(argv):
             broken.append({"what": "axioms outside the trusted base", "detail": bad_axioms})
         want = cfg.get("required_theorems", [])
         have = {t["name"] for t in theorems}
-        missing = [w for w in want if (module + "." + w) not in have and w not in have]
+        missing = [w for w in want if not any((m + "." + w) in have for m in modules) and w not in have]
         if missing:
             broken.append({"what": "required theorems missing from " + module, "detail": missing})
     elif rc == 0:
         broken.append({"what": "axiom audit did not run", "detail": log[-1:]})
     if tier == "thorough" and rc == 0:
         with Lock("lake"):
-            rcc, outc = sh(["lake", "env", "leanchecker", module], cwd=LEAN, timeout=3600)
+            rcc, outc = sh(["lake", "env", "leanchecker"] + modules, cwd=LEAN, timeout=3600)
         log.append("leanchecker rc=%d" % rcc)
         if rcc != 0:
             broken.append({"what": "leanchecker " + module, "detail": outc[-1500:]})
@@ -509,8 +524,8 @@ def main(argv):
         "coverage": {
             "obligations": max(n_thm, 1) if theorems is not None else 1,
             "discharged": n_thm if (theorems is not None and rc == 0 and not bad_axioms and not hy) else 0,
-            "checker_cmd": "cd /verif/lean && lake build %s && lake env lean --run Audit.lean %s%s" % (
-                module, module, " && lake env leanchecker " + module if tier == "thorough" else ""),
+            "checker_cmd": "cd /verif/lean && lake build %s && for m in %s; do lake env lean --run Audit.lean $m; done%s" % (
+                " ".join(modules), " ".join(modules), " && lake env leanchecker " + " ".join(modules) if tier == "thorough" else ""),
             "trusted_base": ["Lean 4.33.0 kernel"] +
                             ["axiom " + a for a in sorted({a for t in (theorems or []) for a in t["axioms"]})] +
                             cfg.get("trusted", []),
